@@ -3,8 +3,9 @@
 # in an isolated copy of /repo + harness (py/mutant.sh) and record the outcome in meta.json.
 #   usage: run_seeds.sh [seed-id ...]      (default: all)
 cd /verif/seeded
-# one mutant directory: serialise concurrent invocations
-exec 9>/tmp/run_seeds.lock; flock 9
+# one mutant directory per invocation (MUT_DIR, default /tmp/mut): serialise invocations that share it
+export MUT_DIR=${MUT_DIR:-/tmp/mut}
+exec 9>/tmp/run_seeds.$(basename $MUT_DIR).lock; flock 9
 IDS="$@"; [ -z "$IDS" ] && IDS=$(ls -d */ | tr -d /)
 for id in $IDS; do
   prop=$(python3 -c "import json;print(json.load(open('/verif/seeded/$id/meta.json'))['property'])")
